@@ -77,7 +77,7 @@ func (c *compiler) toIrType(ddpType ddptypes.Type) ddpIrType {
 		case ddptypes.VARIABLE:
 			return c.ddpanylist
 		default:
-			return c.structTypes[underlying.(*ddptypes.StructType)].listType
+			return c.structTypeOf(underlying.(*ddptypes.StructType)).listType
 		}
 	} else {
 		switch ddpType {
@@ -98,9 +98,19 @@ func (c *compiler) toIrType(ddpType ddptypes.Type) ddpIrType {
 		case ddptypes.VoidType{}:
 			return c.void
 		default: // struct types
-			return c.structTypes[ddpType.(*ddptypes.StructType)]
+			return c.structTypeOf(ddpType.(*ddptypes.StructType))
 		}
 	}
+}
+
+// returns the IR type of a struct type
+// types that were not declared with the imports (e.g. a private type of another module
+// in the body of a generic function instantiated here) are declared on demand
+func (c *compiler) structTypeOf(structType *ddptypes.StructType) *ddpIrStructType {
+	if _, exists := c.structTypes[structType]; !exists {
+		c.defineOrDeclareStructType(structType)
+	}
+	return c.structTypes[structType]
 }
 
 // used to handle possible reference parameters
